@@ -1,4 +1,5 @@
 import JugModel.Props.C12
+import JugModel.Props.LoopBridge
 import JugModel.Props.WorkerBridge
 #print axioms Jug.C12.stop_leaves_no_lock
 #print axioms Jug.C12.stop_always_enabled
@@ -10,3 +11,4 @@ import JugModel.Props.WorkerBridge
 #print axioms Jug.WorkerBridge.worker_conforms
 #print axioms Jug.C12.stop_mechanisms_use_known_hooks
 #print axioms Jug.C12.continuation_completes
+#print axioms Jug.LoopBridge.continuation_completes_of_loop_workers
